@@ -1,6 +1,7 @@
 package main
 
 import (
+	"bytes"
 	"fmt"
 	"regexp"
 	"strings"
@@ -34,7 +35,7 @@ func (c10) Assumptions() []string {
 	}
 }
 func (c10) Required(tier string) []string {
-	req := []string{"H-hostile", "H-error", "H-reenter", "B-scribble", "B-resize", "D-dirty", "hostile-offset-out-of-range-on-consumed-member", "doc-toodeep", "doc-megatoken", "doc-truncated", "doc-random", "doc-cut-off-part-in-spare-capacity"}
+	req := []string{"H-hostile", "H-error", "H-reenter", "B-scribble", "B-resize", "D-dirty", "hostile-offset-out-of-range-on-consumed-member", "doc-toodeep", "doc-megatoken", "doc-truncated", "doc-random", "doc-cut-off-part-in-spare-capacity", "doc-from-the-entry-points-own-domain-cut-mid-token"}
 	return req
 }
 
@@ -100,6 +101,71 @@ func genHostileDoc(r *Rand, tier string) Doc {
 	return genDoc(r, []string{"tiny", "small", "medium"}[r.Intn(3)])
 }
 
+// cutInsideEscape cuts b right after a backslash or inside a \uXXXX escape if it has one
+// (an incomplete escape at the very end of the input), else at a random place.
+func cutInsideEscape(r *Rand, b []byte) []byte {
+	var at []int
+	for i := 0; i < len(b); i++ {
+		if b[i] == '\\' {
+			at = append(at, i)
+			i++
+		}
+	}
+	if len(at) == 0 || r.Chance(1, 4) {
+		if len(b) == 0 {
+			return b
+		}
+		return b[:r.Intn(len(b)+1)]
+	}
+	i := at[r.Intn(len(at))]
+	n := 1
+	if i+1 < len(b) && b[i+1] == 'u' {
+		n = r.Range(1, 11) // \ \u \u1 ... and into a following low-surrogate escape
+	}
+	if i+n > len(b) {
+		n = len(b) - i
+	}
+	return b[:i+n]
+}
+
+// genDomainDoc draws an input from the natural domain of one entry point (string content for the
+// unescaping helpers, one string token for the string readers, one number literal for the numeric
+// readers, a literal for ReadBool/ReadNull), damaged the way partial input is: cut in the middle of
+// an escape, an exponent, a literal. Whole documents rarely end in those places.
+func genDomainDoc(r *Rand, name string) (Doc, bool) {
+	switch name {
+	case "UnescapeStringContent", "StdLibCompatibleString", "StdLibCompatibleStringBytes":
+		cfg := &genCfg{esc: 2, rawBad: r.Chance(1, 3)}
+		var b bytes.Buffer
+		genStringContent(r, &b, cfg, []int{1, 2, 4, 10, 40}[r.Intn(5)])
+		full := append([]byte(nil), b.Bytes()...)
+		return docCut(r, full, cutInsideEscape(r, full), "domain-string-content-cut"), true
+	case "ReadString", "ReadStringBytes", "DecodeString", "ReadValue", "VR.ReadValue":
+		cfg := &genCfg{esc: 2, rawBad: r.Chance(1, 3)}
+		var b bytes.Buffer
+		b.WriteByte('"')
+		genStringContent(r, &b, cfg, []int{1, 2, 4, 10, 40}[r.Intn(5)])
+		b.WriteByte('"')
+		full := append([]byte(nil), b.Bytes()...)
+		return docCut(r, full, cutInsideEscape(r, full), "domain-string-token-cut"), true
+	case "ReadFloat64", "ReadInt64", "ReadUint64", "ReadInt32", "ReadUint32", "ReadInt", "ReadUint",
+		"DecodeFloat64", "DecodeInt64", "DecodeUint64", "DecodeInt32", "DecodeUint32", "DecodeInt", "DecodeUint":
+		var b bytes.Buffer
+		genNumber(r, &b)
+		full := append([]byte(nil), b.Bytes()...)
+		cut := full[:r.Intn(len(full)+1)]
+		if r.Chance(1, 3) {
+			cut = append(append([]byte(nil), cut...), []string{"e", "E+", ".", "-", "e-", "+", "x", "\x00"}[r.Intn(8)]...)
+			return docOf(cut, "domain-number-cut"), true
+		}
+		return docCut(r, full, cut, "domain-number-cut"), true
+	case "ReadBool", "ReadNull", "DecodeBool", "NextToken", "NextTokenType", "TokenType.String":
+		lit := []string{"true", "false", "null", " \ttrue", "\r\nnull", "  false"}[r.Intn(6)]
+		return docCut(r, []byte(lit), []byte(lit[:r.Intn(len(lit)+1)]), "domain-literal-cut"), true
+	}
+	return Doc{}, false
+}
+
 func genHostileTape(r *Rand, n int) []int {
 	t := make([]int, n)
 	if n > 0 && r.Chance(1, 6) {
@@ -158,6 +224,11 @@ func (c10) Gen(r *Rand, sc *Scenario, tier string) {
 		if !faultFree && (name == "HandleArrayValues" || name == "HandleObjectValues") && r.Chance(2, 3) {
 			sc.Docs[i] = genTraversalDoc(r, name == "HandleObjectValues", true)
 		}
+		if !faultFree && r.Chance(1, 2) {
+			if d, ok := genDomainDoc(r, name); ok {
+				sc.Docs[i] = d
+			}
+		}
 		op := Op{Kind: name, Doc: i, Doc2: r.Intn(i + 1)}
 		if !faultFree {
 			op.A = r.Intn(2)
@@ -195,6 +266,8 @@ func (c10) Exec(sc *Scenario, st *Stats) *Violation {
 			st.probe("doc-truncated")
 		case d.Class == "random":
 			st.probe("doc-random")
+		case strings.HasPrefix(d.Class, "domain-"):
+			st.probe("doc-from-the-entry-points-own-domain-cut-mid-token")
 		}
 		if len(d.Tail) > 0 {
 			st.probe("doc-cut-off-part-in-spare-capacity")
